@@ -11,5 +11,6 @@ CONSTANTS
   CfgSW = FALSE
   CfgNidl = FALSE
   CfgSO = TRUE
+  CfgRmErr = FALSE
 INVARIANTS InvC01
 CHECK_DEADLOCK FALSE
